@@ -666,6 +666,8 @@ func sortCallOn(p *Program, call *ast.CallExpr, v string) (string, bool) {
 		return name + " with a custom comparator (shape checked by R1)", true
 	case (name == "sort.Slice" || name == "sort.SliceStable") && argIs(0):
 		return name + " with a literal comparator (shape checked by R1)", true
+	case (name == "slices.SortFunc" || name == "slices.SortStableFunc") && argIs(0):
+		return name + " with a three-way comparator", true
 	case (name == "SortTags" || name == "graph.SortTags") && argIs(0):
 		return "SortTags (tags.Less, checked by R1/R3)", true
 	}
